@@ -58,7 +58,10 @@ def bytes_term(repo: Repo, ci: ClassInfo, fn: FunctionInfo, expr: ast.AST) -> Te
     if isinstance(expr, ast.Call):
         cn = call_name(expr)
         if cn and cn.endswith(".emit") and not cn.startswith("super()"):
-            args = [unparse(a) for a in expr.args]
+            from .match import kwarg as _kw
+
+            bound = [_kw(expr, n_, i_) for i_, n_ in enumerate(("value_node", "resolver", "size"))]  # by position or keyword
+            args = [unparse(a) for a in bound if a is not None]
             return Term("opcode", (cn.rsplit(".", 1)[0], tuple(args)))
         if cn == "super().emit":
             for base in repo.mro(ci)[1:]:
@@ -90,7 +93,10 @@ def int_term(fn: FunctionInfo, expr: ast.AST) -> Term:
     if isinstance(expr, ast.Call):
         cn = call_name(expr)
         if cn and cn.endswith(".supposed_length"):
-            return Term("opcode", (cn.rsplit(".", 1)[0], tuple(unparse(a) for a in expr.args)))
+            from .match import kwarg as _kw2
+
+            bound2 = [_kw2(expr, n_, i_) for i_, n_ in enumerate(("value_node", "size"))]
+            return Term("opcode", (cn.rsplit(".", 1)[0], tuple(unparse(a) for a in bound2 if a is not None)))
     raise AnalysisError(f"{fn.where}: advance `{unparse(expr)[:70]}` not modelled")
 
 
